@@ -34,25 +34,13 @@ def check(repo: Repo, R) -> None:
         return
     inet = ast.unparse(inets[0][1]["I"])
     R.ok(rule, key_of(fs, "internal-net"), fs.at(inets[0][0]), f"one internal net `{inet}` of width nser - 1, owned by the generated module")
-    # the resolved series pair: `sc = _seriesconns(m, params.conns)` or `first, second = _seriesconns(...)`
-    A = B = None
-    pair_texts = []
-    for st in au.stmts(fs.node):
-        if isinstance(st, ast.Assign) and ast.unparse(st.value) == f"_seriesconns(m, {p}.conns)":
-            t = st.targets[0]
-            if isinstance(t, ast.Name):
-                A, B = f"{t.id}[0]", f"{t.id}[1]"
-                pair_texts = [t.id]
-            elif isinstance(t, ast.Tuple) and len(t.elts) == 2:
-                A, B = ast.unparse(t.elts[0]), ast.unparse(t.elts[1])
-                pair_texts = [f"({A}, {B})", f"[{A}, {B}]"]
-    if A is None:
-        raise AnalysisError(f"idiom-unknown: series ports in {fs.site}")
-    # writes to the connection dict, in source order: (kind, key text, value text, line)
-    dvar = None
-    for c, b in pat.find(f"m.add({p}.nser * {p}.unit(**$D), name=$N)", fs.node):
-        dvar = ast.unparse(b["D"])
+    from . import shared
+
+    P_ = lambda e: shared.prov_text(fs.node, e, keep=("m",))  # `m` is the module being built: an object, not a value to substitute
+    # the unit array and its connection dict
     arr = pat.find(f"m.add({p}.nser * {p}.unit(**$D), name=$N)", fs.node)
+    dvar = ast.unparse(arr[0][1]["D"]) if len(arr) == 1 else None
+    # writes to the connection dict, in program order: (kind, key node, value node, statement)
     writes = []
     if dvar:
         for st in au.stmts(fs.node):
@@ -60,62 +48,119 @@ def check(repo: Repo, R) -> None:
                 v = st.value
                 if isinstance(v, ast.Dict):
                     for k, x in zip(v.keys, v.values):
-                        writes.append(("item", ast.unparse(k), ast.unparse(x), st.lineno))
+                        writes.append(("item", k, x, st))
                 elif isinstance(v, ast.DictComp):
-                    writes.append(("comp", ast.unparse(v.key), ast.unparse(v), st.lineno))
+                    writes.append(("comp", v.key, v, st))
                 else:
-                    writes.append(("other", "", ast.unparse(v), st.lineno))
+                    writes.append(("other", None, v, st))
             elif isinstance(st, ast.Assign) and isinstance(st.targets[0], ast.Subscript) and ast.unparse(st.targets[0].value) == dvar:
-                writes.append(("item", ast.unparse(st.targets[0].slice), ast.unparse(st.value), st.lineno))
+                writes.append(("item", st.targets[0].slice, st.value, st))
             elif isinstance(st, ast.Expr) and isinstance(st.value, ast.Call) and ast.unparse(st.value.func) == f"{dvar}.update" and st.value.args:
                 a0 = st.value.args[0]
-                writes.append(("comp" if isinstance(a0, ast.DictComp) else "other", "", ast.unparse(a0), st.lineno))
-    writes.sort(key=lambda w: w[3])
-    last_first = [w for w in writes if w[0] == "item" and w[1] == f"{A}.name"]
-    last_second = [w for w in writes if w[0] == "item" and w[1] == f"{B}.name"]
+                writes.append(("comp" if isinstance(a0, ast.DictComp) else "other", None, a0, st))
+    # the two series entries, by role: <X>.name -> Concat(X, net) and <Y>.name -> Concat(net, Y)
+    A = B = None
+    wa = wb = None
+    for kind, k, v, st in writes:
+        if kind != "item":
+            continue
+        m1 = pat.match(f"h.Concat($X, {inet})", v)
+        m2 = pat.match(f"h.Concat({inet}, $X)", v)
+        if m1 is not None and ast.unparse(k) == f"{ast.unparse(m1['X'])}.name":
+            A, wa = m1["X"], st
+        if m2 is not None and ast.unparse(k) == f"{ast.unparse(m2['X'])}.name":
+            B, wb = m2["X"], st
+    if A is None or B is None:
+        concat_writes = [ast.unparse(st) for kind, k, v, st in writes if kind == "item" and "Concat" in ast.unparse(v)]
+        if not concat_writes:
+            raise AnalysisError(f"idiom-unknown: series ports in {fs.site}")
+        R.bad(rule, key_of(fs, "offset-concats"), fs.site, f"the series entries are {concat_writes}: expected one port <- Concat(port, {inet}) and the other <- Concat({inet}, port), each keyed by that port's name",
+              "the chain is broken, reversed or closed on itself: unit k's second port is not unit k+1's first")
+        return
+    # ... which are the module's ports resolved from conns[0] and conns[1], in that order
+    RES = {0: (f"_seriesconn(m, {p}.conns[0])", f"_seriesconns(m, {p}.conns)[0]"), 1: (f"_seriesconn(m, {p}.conns[1])", f"_seriesconns(m, {p}.conns)[1]")}
+    unpack = {}
+    for st in au.stmts(fs.node):
+        if isinstance(st, ast.Assign) and len(st.targets) == 1 and isinstance(st.targets[0], ast.Tuple) and len(st.targets[0].elts) == 2 and all(isinstance(x, ast.Name) for x in st.targets[0].elts):
+            for k_, x in enumerate(st.targets[0].elts):
+                unpack[x.id] = f"{P_(st.value)}[{k_}]"
+    def res(e):
+        t = ast.unparse(e)
+        return unpack.get(t, P_(e))
+    resolved_ok = res(A) in RES[0] and res(B) in RES[1]
     comps = [w for w in writes if w[0] == "comp"]
     others = [w for w in writes if w[0] == "other"]
-    first_ok = bool(last_first) and last_first[-1][2] == f"h.Concat({A}, {inet})"
-    second_ok = bool(last_second) and last_second[-1][2] == f"h.Concat({inet}, {B})"
+    last_first = [w for w in writes if w[0] == "item" and ast.unparse(w[1]) == f"{ast.unparse(A)}.name"]
+    last_second = [w for w in writes if w[0] == "item" and ast.unparse(w[1]) == f"{ast.unparse(B)}.name"]
+    first_ok = bool(last_first) and last_first[-1][3] is wa and resolved_ok
+    second_ok = bool(last_second) and last_second[-1][3] is wb and resolved_ok
     # the series entries are written after the parallel ones (they must win), and nothing unknown writes the dict
-    wins = bool(comps) and first_ok and second_ok and max(c[3] for c in comps) < min(last_first[-1][3], last_second[-1][3]) and not others
-    # ... unless the parallel set provably excludes the resolved series ports by identity
+    wins = bool(comps) and first_ok and second_ok and all(shared.precedes(fs.node, c[3], wa) and shared.precedes(fs.node, c[3], wb) for c in comps) and not others
     R.check(first_ok and second_ok and wins, rule, key_of(fs, "offset-concats"), fs.site,
-            f"first series port of the array <- Concat(A, {inet}) ({first_ok}); second <- Concat({inet}, B) ({second_ok}); these entries are the last writes of their keys ({wins}): "
+            f"first series port (resolved from conns[0]) of the array <- Concat(A, {inet}) ({first_ok}); second (from conns[1]) <- Concat({inet}, B) ({second_ok}); these entries are the last writes of their keys ({wins}): "
             f"unit k's second port is {inet}[k] = unit k+1's first port, unit 0's first port is A, unit n-1's second port is B",
             why="the chain is broken, reversed or closed on itself — or the series entries are overwritten by the by-name parallel wiring, so that all units sit in parallel across the two series ports")
     R.check(len(arr) == 1, rule, key_of(fs, "array"), fs.site, f"an array of nser instances of the unit, connected by the connection dict: {len(arr) == 1}", why="the number of units differs from nser")
     # parallel ports: every module port that is not one of the two resolved series ports (by identity), wired by name
-    par = False
-    for n in au.walk_no_nested(fs.node):
-        if isinstance(n, (ast.ListComp, ast.DictComp)) and len(n.generators) == 1 and ast.unparse(n.generators[0].iter) == "m.ports.values()":
-            ifs = [ast.unparse(i) for i in n.generators[0].ifs]
-            tv = ast.unparse(n.generators[0].target)
-            par = any(ifs == [f"{tv} not in {pt}"] for pt in pair_texts)
-    byname = any(w[0] == "comp" and ".name:" in w[2].replace(" ", "").replace(".name:", ".name:") for w in comps) and all(pat.match("{$P.name: $P for $P in $X}", ast.parse(w[2], mode="eval").body) is not None for w in comps)
+    par = byname = False
+    for kind, k, v, st in comps:
+        if isinstance(v, ast.DictComp) and len(v.generators) == 1 and ast.unparse(v.generators[0].iter) == "m.ports.values()" and isinstance(v.generators[0].target, ast.Name):
+            tv = v.generators[0].target.id
+            byname = ast.unparse(v.key) == f"{tv}.name" and ast.unparse(v.value) == tv
+            ifs = v.generators[0].ifs
+            if len(ifs) == 1 and isinstance(ifs[0], ast.Compare) and isinstance(ifs[0].ops[0], ast.NotIn) and ast.unparse(ifs[0].left) == tv:
+                pr = ifs[0].comparators[0]
+                if isinstance(pr, (ast.Tuple, ast.List)) and len(pr.elts) == 2:
+                    par = {ast.unparse(x) for x in pr.elts} == {ast.unparse(A), ast.unparse(B)}
+                else:
+                    # the resolved pair itself
+                    par = P_(pr) == f"_seriesconns(m, {p}.conns)" and res(A) == RES[0][1] and res(B) == RES[1][1]
+            elif len(ifs) in (1, 2):
+                txt = {ast.unparse(c) for c in (ifs[0].values if len(ifs) == 1 and isinstance(ifs[0], ast.BoolOp) and isinstance(ifs[0].op, ast.And) else ifs)}
+                par = txt == {f"{tv} is not {ast.unparse(A)}", f"{tv} is not {ast.unparse(B)}"}
     R.check(par and byname, rule, key_of(fs, "parallel-ports"), fs.site,
             f"the parallel ports are the module ports that are not one of the two resolved series ports (identity test against the resolved pair: {par}), each wired to the unit port of its own name ({byname})",
             why="with series ports given as Signals a test by name against params.conns never matches: the series ports are wired in parallel too; or parallel ports are left open / crossed")
     ports = [n for n in au.walk_no_nested(fs.node) if isinstance(n, ast.For) and ast.unparse(n.iter) == f"{p}.unit.ports.values()"]
     ok = len(ports) == 1 and bool(pat.find("m.add(deepcopy(p))", ports[0]))
     R.check(ok, rule, key_of(fs, "ports-cloned"), fs.site, f"the generated module has a copy of each unit port: {ok}", why="module ports differ from the unit's")
-    arr_after = bool(arr) and bool(writes) and max(w[3] for w in writes) < arr[0][0].lineno
+    arr_after = bool(arr) and bool(writes) and all(shared.precedes(fs.node, w[3], arr[0][0]) for w in writes)
     R.check(arr_after, rule, key_of(fs, "order"), fs.site, f"the array is connected after the connection dict is complete: {arr_after}", why="the array is connected before (or without) the series concatenations")
 
     rule = "C19.2-series-corner-cases"
     lt = any(isinstance(n, ast.If) and au.cmp_norm(n.test) == au.cmp_norm(ast.parse(f"{p}.nser < 1", mode="eval").body) and au.raises(n.body) for n in au.walk_no_nested(fs.node))
     one = any(isinstance(n, ast.If) and au.cmp_norm(n.test) == au.cmp_norm(ast.parse(f"{p}.nser == 1", mode="eval").body) and ast.unparse(n.body[-1]) == f"return Wrapper({p}.unit)" for n in au.walk_no_nested(fs.node))
     R.check(lt and one, rule, key_of(fs), fs.site, f"nser < 1 raises ({lt}); nser == 1 is a plain Wrapper of the unit ({one})", why="nser = 1 builds a zero-width net; nser = 0 builds an empty module")
-    fsc = repo.func(F_GENERATORS, "_seriesconns")
-    dsc = au.local_defs(fsc.node)
-    rets = [n for n in au.walk_no_nested(fsc.node) if isinstance(n, ast.Return)]
-    ok = len(rets) == 1 and ast.unparse(au.expand(rets[0].value, dsc, depth=1)) == "(_seriesconn(m, conns[0]), _seriesconn(m, conns[1]))"
-    R.check(ok, rule, key_of(fsc), fsc.site, f"the pair is returned as (resolve(conns[0]), resolve(conns[1])) — in the caller's order, not re-derived from the port list: {ok}", why="a pair named against the unit's declaration order (('s','d') on a Mos) is silently swapped: the chain is built from the wrong end")
+    fsc = repo.find_func(F_GENERATORS, "_seriesconns")
+    if fsc is not None:
+        dsc = au.local_defs(fsc.node)
+        rets = [n for n in au.walk_no_nested(fsc.node) if isinstance(n, ast.Return)]
+        ok = len(rets) == 1 and ast.unparse(au.expand(rets[0].value, dsc, depth=1)) == "(_seriesconn(m, conns[0]), _seriesconn(m, conns[1]))"
+        R.check(ok, rule, key_of(fsc), fsc.site, f"the pair is returned as (resolve(conns[0]), resolve(conns[1])) — in the caller's order, not re-derived from the port list: {ok}", why="a pair named against the unit's declaration order (('s','d') on a Mos) is silently swapped: the chain is built from the wrong end")
+    else:
+        # no pair helper: the two ports are resolved in place (checked above: A from conns[0], B from conns[1])
+        R.check(resolved_ok and res(A) == RES[0][0] and res(B) == RES[1][0], rule, f"{F_GENERATORS}::_seriesconns", fs.site, f"the two series ports are resolved in place as resolve(conns[0]), resolve(conns[1]) — in the caller's order: {resolved_ok}", why="a pair named against the unit's declaration order (('s','d') on a Mos) is silently swapped: the chain is built from the wrong end")
     f1 = repo.func(F_GENERATORS, "_seriesconn")
-    by_sig = any(isinstance(n, ast.If) and ast.unparse(n.test) == "isinstance(conn, h.Signal)" and bool(pat.find("rv = m.ports.get(conn.name, None)", n)) for n in au.walk_no_nested(f1.node))
-    by_name = any(isinstance(n, ast.If) and ast.unparse(n.test) == "isinstance(conn, str)" and bool(pat.find("rv = m.ports.get(conn, None)", n)) for n in au.walk_no_nested(f1.node))
-    chk = any(isinstance(n, ast.If) and "rv is None" in ast.unparse(n.test) and au.raises(n.body) for n in au.walk_no_nested(f1.node))
-    R.check(by_sig and by_name and chk, rule, key_of(f1), f1.site, f"a series port given by Signal ({by_sig}) or by name ({by_name}) resolves to the *module's* port of that name; unknown ports raise ({chk})", why="the series pair refers to the unit's own port objects (foreign to the module) or to a missing port")
+    # what is returned, as alternatives: m.ports.get(<conn.name>) for a Signal, m.ports.get(<conn>) for a str; other kinds and missing ports raise
+    by_sig = by_name = False
+    rets1 = shared.returns_of(f1.node)
+    for r in rets1:
+        for v, cds in shared.alternatives(f1.node, r.value, list(shared.path_conditions(f1.node, r))):
+            vt = ast.unparse(v)
+            kinds = set()
+            for t, pol in cds:
+                rr = au.isinstance_classes(t) if isinstance(t, ast.Call) else None
+                if rr is not None and ast.unparse(rr[0]) == "conn" and pol:
+                    kinds |= {ast.unparse(c).split(".")[-1] for c in rr[1]}
+            if vt == "m.ports.get(conn.name)" and kinds == {"Signal"}:
+                by_sig = True
+            if vt == "m.ports.get(conn)" and kinds == {"str"}:
+                by_name = True
+    allv = {ast.unparse(v) for r in rets1 for v, _c in shared.alternatives(f1.node, r.value, list(shared.path_conditions(f1.node, r)))}
+    only = allv <= {"m.ports.get(conn.name)", "m.ports.get(conn)"}
+    # a result that is not a Signal (in particular None: no such port) raises
+    chk = any(isinstance(n, ast.If) and ((("is None" in ast.unparse(n.test)) and au.raises(n.body)) or (pat.match("isinstance($RV, h.Signal)", n.test) is not None and au.raises(n.orelse))) for n in au.walk_no_nested(f1.node)) and au.dispatch_default_raises(f1.node, "conn")
+    R.check(by_sig and by_name and chk and only, rule, key_of(f1), f1.site, f"a series port given by Signal ({by_sig}) or by name ({by_name}) resolves to the *module's* port of that name; unknown ports raise ({chk})", why="the series pair refers to the unit's own port objects (foreign to the module) or to a missing port")
 
     rule = "C19.3-mosstack"
     fm = repo.func(F_GENERATORS, "MosStack")
